@@ -36,6 +36,12 @@ func NewForVerifRPC(address, controlAddress string, conn net.Conn) *Remote {
 	return r
 }
 
+// VerifStartMonitor is Factory.Create's `go r.monitorPing(remote)` for a NewForVerifRPC backend.
+func (r *Remote) VerifStartMonitor() { go r.monitorPing(r.IOs.(*rpc.Client)) }
+
+// VerifPingInterval is the period of monitorPing's ticker (the harness owns that ticker through vtime.TickerHook).
+var VerifPingInterval = pingInveral
+
 // VerifAttach repeats the admission part of Factory.Create for a NewForVerif backend: the replica must report
 // state "closed", then it is opened.
 func (r *Remote) VerifAttach() error {
